@@ -60,6 +60,7 @@ func NewHandlerForRead(ctx context.Context, path string, defaultWaitTimeout time
 		openType: ForRead,
 	}
 
+	verifPoint("read.exists")
 	if !Exists(h.path) {
 		return h, NewNotExistError(fmt.Sprintf("file %s does not exist", h.path))
 	}
@@ -68,6 +69,7 @@ func NewHandlerForRead(ctx context.Context, path string, defaultWaitTimeout time
 		return h, closeIsolatedHandler(h, err)
 	}
 
+	verifPoint("read.open")
 	fp, err := file.OpenToReadContext(tctx, retryDelay, h.path)
 	if err != nil {
 		return h, closeIsolatedHandler(h, err)
@@ -116,6 +118,7 @@ func NewHandlerForUpdate(ctx context.Context, path string, defaultWaitTimeout ti
 		openType: ForUpdate,
 	}
 
+	verifPoint("upd.exists")
 	if !Exists(h.path) {
 		return h, NewNotExistError(fmt.Sprintf("file %s does not exist", h.path))
 	}
@@ -124,6 +127,7 @@ func NewHandlerForUpdate(ctx context.Context, path string, defaultWaitTimeout ti
 		return h, closeIsolatedHandler(h, err)
 	}
 
+	verifPoint("upd.open")
 	fp, err := file.OpenToUpdateContext(tctx, retryDelay, path)
 	if err != nil {
 		return h, closeIsolatedHandler(h, err)
@@ -217,6 +221,7 @@ func (h *Handler) commit() error {
 
 		// os.Rename replaces an existing file atomically; removing the table first would leave a
 		// window in which a crash loses it and other processes do not find it
+		verifPoint("commit.rename")
 		if err := os.Rename(h.tempFile.path, h.path); err != nil {
 			return err
 		}
